@@ -27,6 +27,14 @@ func DetectDeviceConfigChanges(ctx context.Context) <-chan bool {
 			}
 		}()
 
+		go func() {
+			// nobody else consumes the error stream and the library blocks on it, e.g. when it reports
+			// a queue overflow after a burst of writes: without this no later change would be noticed
+			for err := range watcher.Errors {
+				log.Info(fmt.Sprintf("config watcher error: %v", err), logger.Warning)
+			}
+		}()
+
 		for _, path := range []string{
 			factoryGamepad,
 			factoryKeyboard,
